@@ -53,10 +53,15 @@ def old_text(i, big):
     return t
 
 
-def make_template(d, big):
+def make_template(d, big, links=()):
+    """links: fragments whose format file is a symbolic link to a regular file `real<i>` in the same directory"""
     for sub in ("sub1", "sub2"):
         os.makedirs(os.path.join(d, sub))
     for i, (rel, _) in enumerate(LAYOUT[:NFRAG0]):
+        if i in links:
+            real = os.path.join(os.path.dirname(os.path.join(d, rel)), "real%d" % i)
+            os.symlink("real%d" % i, os.path.join(d, rel))
+            rel = os.path.relpath(real, d)
         with open(os.path.join(d, rel), "w") as fh:
             fh.write(old_text(i, big.get(i, 0)))
 
@@ -98,13 +103,14 @@ def parse_harness(out):
 
 
 class Scenario:
-    def __init__(self, sid, mods, op, big, base, pad=None):
+    def __init__(self, sid, mods, op, big, base, pad=None, links=()):
+        self.links = tuple(links)
         self.pad = pad; self.env = ({"LOGNAME": "u" * pad, "HOSTNAME": "h"} if pad else None)
         self.sid = sid; self.mods = sorted(mods); self.op = op; self.big = dict(big)
         self.dir = os.path.join(base, "s%d" % sid)
         self.tmpl = os.path.join(self.dir, "tmpl")
         os.makedirs(self.dir)
-        make_template(self.tmpl, self.big)
+        make_template(self.tmpl, self.big, self.links)
         self.frs = frs_of(op, self.mods)
         self.include = (op == "include")
         if self.include:
@@ -118,7 +124,7 @@ class Scenario:
 
     def desc(self):
         return {"layout": [r for r, _ in LAYOUT], "modified_fragments": self.mods, "operation": self.op,
-                "extra_fields_per_fragment": self.big,
+                "extra_fields_per_fragment": self.big, "symlinked_format_files": [LAYOUT[i][0] for i in self.links],
                 "how": "harness/C12/shim -r DIR [-k K | -f K:ERRNO] -- harness/C12/flush run DIR %s %s  (DIR built by checks/C12.py make_template)" % (self.op, self.modarg())}
 
     def work(self, tag):
@@ -132,6 +138,8 @@ def classify_files(sc, tr, old, new):
     cls = []
     for i in sc.frs:
         b = tr.get(LAYOUT[i][0])
+        if isinstance(b, tuple):          # a symbolic link: what a reader gets is the content of its target
+            b = tr.get(os.path.normpath(os.path.join(os.path.dirname(LAYOUT[i][0]), b[1])))
         if old.get(i) is None and (b is None or b == b""):
             cls.append("O")          # a fragment the operation creates: absent or still empty = previous state
         elif b is None:
@@ -299,6 +307,9 @@ def main():
         plan.append((mods, rng.choice(ops), big))
     errnos = ["ENOSPC", "EIO", "EACCES"]
     scs = [Scenario(n, m, o, b, base) for n, (m, o, b) in enumerate(plan)]
+    # fragments whose format file is a symbolic link (the flush must still publish by rename, never write through the link)
+    scs.append(Scenario(len(scs), {2}, "metaflush", {2: 150}, base, links={2}))
+    scs.append(Scenario(len(scs), {1, 2}, "close", {}, base, links={1}))
     # sweep the stdio block boundary over many byte positions of the text (only the write calls are failed there):
     # which fprintf/fputs happens to flush the block decides which result check has to notice a failed write
     nsweep = 12 if not chk.thorough else 48
@@ -360,6 +371,7 @@ def main():
                 seen_chmod = True; perm.append(byidx[ix].arg & 0o7777)
         sc.chunks, sc.perm = chunks, perm
         sc.oldlen = {i: len(sc.old[i] or b"") for i in range(len(LAYOUT))}
+        sc.tmpl_tree = shimlib.tree(sc.tmpl)
         # spec: success, everything the operation writes is new, flags cleared, no temp
         cls, tm = classify_files(sc, sc.final, sc.old, sc.new)
         exp_flags_ok = True
@@ -399,6 +411,8 @@ def main():
         sc, j = arg
         w = sc.work("mix%d" % j)
         for i in sc.frs[:j]:
+            if os.path.islink(os.path.join(w, LAYOUT[i][0])):
+                os.unlink(os.path.join(w, LAYOUT[i][0]))       # publication by rename replaces the link itself
             shutil.copyfile(os.path.join(sc.dir, "base", LAYOUT[i][0]), os.path.join(w, LAYOUT[i][0]))
         for i in sc.frs[j:]:
             if not os.path.exists(os.path.join(w, LAYOUT[i][0])):
@@ -465,6 +479,17 @@ def main():
         counts["snapshots" if what == "snapshot" else "kill_points"] += 1
         chk.cov["evaluations"] += 1
         kk = sc.n if k == "end" else k
+        # crash_prefix_shape / untouched: nothing but the flushed fragments and temporary names may differ from before
+        flushed = set(LAYOUT[i][0] for i in sc.frs)
+        for rel, b in tr.items():
+            if rel not in flushed and not shimlib.is_temp_name(rel) and sc.tmpl_tree.get(rel) != b:
+                spec_fail(sc, "%s/other-file-changed" % sc.op.split(":")[0], "%s at call %s of %s: the file %s, which is not a fragment this operation writes, was created or changed" % (what, k, sc.op, rel),
+                          {"crash_point": k, "file": rel})
+                break
+        for rel in sc.tmpl_tree:
+            if rel not in tr:
+                spec_fail(sc, "%s/other-file-removed" % sc.op.split(":")[0], "%s at call %s of %s: the file %s disappeared" % (what, k, sc.op, rel), {"crash_point": k, "file": rel})
+                break
         ok_ = judge_state(sc, what, k, cls, tm, dump, {})
         nontriv.add((sc.sid, what, tuple(cls), tuple(sorted(tm.values()))))
         mc = model.get((sc.sid, -1))
@@ -670,6 +695,118 @@ def main():
             spec_fail(sc, key0 + "/failure-but-written", "%s reported failure although every fragment was replaced" % sc.op, extra)
         if retry is None or retry["ret"] != 0 or cls_fin != ["N"] * len(cls_fin):
             spec_fail(sc, key0 + "/retry-incomplete", "%s with failing calls %s: retry returned %s, files %s" % (sc.op, [repr(c) for c in failed], retry and retry["ret"], cls_fin), extra)
+
+    # ---------------------------------------------------------------- histories: equal basenames in several directories,
+    # failed reads and includes before the flush; EVERY file on disk is judged, and every rename must stay in the
+    # directory of the fragment it belongs to (crash_prefix_shape: nothing but the flushed fragments is touched)
+    def make_hist(d):
+        for sub in ("a", "b", "c"):
+            os.makedirs(os.path.join(d, sub))
+        files = {"format": "/VERSION 9\n/ENCODING none\ndata RAW UINT8 1\nc0 CONST UINT8 10\n/INCLUDE a/inc.format\n/INCLUDE c/inc.format\n",
+                 "a/inc.format": "lin LINTERP data table.lut\nc1 CONST UINT8 11\n",
+                 "c/inc.format": "lin2 LINTERP data tab2.lut\nc2 CONST UINT8 12\n",
+                 "b/inc.format": "c3 CONST UINT8 13\n"}
+        for rel, t in files.items():
+            open(os.path.join(d, rel), "w").write(t)
+        open(os.path.join(d, "data"), "wb").write(bytes(range(16)))
+
+    def hist_new(i, b):
+        """is b the rewritten text of fragment i (and of no other fragment)?"""
+        return (b"n%d CONST" % i) in b and not any((b"n%d CONST" % j) in b for j in range(5) if j != i)
+
+    def hist_job(arg):
+        hid, pre, mods = arg
+        w = os.path.join(base, "h%d" % hid)
+        make_hist(os.path.join(w, "tmpl"))
+        d = os.path.join(w, "df")
+        shutil.copytree(os.path.join(w, "tmpl"), d)
+        logp = os.path.join(w, "log"); snap = os.path.join(w, "snap")
+        rc, out = shimlib.run_shim(shim, d, [exe, "run", d, "metaflush", ",".join(str(m) for m in mods)], log=logp, snap=snap,
+                                   env={"C12_PREOPS": ",".join(pre)})
+        calls = shimlib.read_log(logp)
+        old = shimlib.tree(os.path.join(w, "tmpl"))
+        states = [("before call %d" % c.idx, shimlib.tree(os.path.join(snap, str(c.idx)))) for c in calls if os.path.isdir(os.path.join(snap, str(c.idx)))]
+        states.append(("after the flush", shimlib.tree(d)))
+        rcd, dump = vlib.sh([exe, "dump", d], timeout=60)
+        shutil.rmtree(w, ignore_errors=True)
+        return hid, pre, mods, rc, out, calls, old, states, dump
+    hjobs = []
+    for nl in (0, 1, 2, 3):
+        for nl2 in (0, 2):
+            for rdata in (0, 1):
+                for inc in (0, 1):
+                    pre = ["r:data"] * rdata + ["r:lin"] * nl + ["r:lin2"] * nl2 + (["i:b/inc.format:0"] if inc else [])
+                    hjobs.append((len(hjobs), pre, [1, 2] + ([3] if inc else [])))
+    for _ in range(8 if not chk.thorough else 60):
+        pre = [rng.choice(["r:data", "r:lin", "r:lin", "r:lin2", "n"]) for _ in range(rng.randint(1, 6))]
+        inc = rng.random() < 0.7
+        if inc:
+            pre.insert(rng.randint(0, len(pre)), "i:b/inc.format:0")
+        mods = sorted(set(rng.sample([1, 2] + ([3] if inc else []), rng.randint(1, 2 + (1 if inc else 0)))))
+        hjobs.append((len(hjobs), pre, mods))
+    for hid, pre, mods, rc, out, calls, old, states, dump in pool.map(hist_job, hjobs):
+        counts["history_runs"] = counts.get("history_runs", 0) + 1
+        chk.cov["evaluations"] += len(states)
+        hdesc = {"kind": "impl-vs-spec", "layout": "format (data RAW, INCLUDE a/inc.format, INCLUDE c/inc.format), a/inc.format (LINTERP with a missing table), c/inc.format (the same), b/inc.format on disk only",
+                 "history_before_the_flush": pre, "modified_fragments": mods, "operation": "gd_metaflush",
+                 "how": "C12_PREOPS=%s harness/C12/shim -r DIR -l LOG -- harness/C12/flush run DIR metaflush %s" % (",".join(pre), ",".join(str(m) for m in mods))}
+        frag = {}
+        for l in out.splitlines():
+            wds = l.split()
+            if wds and wds[0] == "fragname":
+                frag[int(wds[1])] = wds[2]
+        h = parse_harness(out)
+        nontriv.add(("hist", tuple(pre), tuple(mods)))
+        if rc != 0 or h["first"] is None:
+            spec_bad.append(("history/crash", "history %s then metaflush of fragments %s: the process died rc=%d %s" % (pre, mods, rc, out[-200:]), hdesc)); continue
+        root_dir = os.path.dirname(frag.get(0, ""))
+        relof = {i: os.path.relpath(pth, root_dir) for i, pth in frag.items()}
+        home = {"format": 0, "a/inc.format": 1, "c/inc.format": 2, "b/inc.format": 3}
+        owner = {"data": 0, "c0": 0, "n0": 0, "lin": 1, "c1": 1, "n1": 1, "lin2": 2, "c2": 2, "n2": 2, "c3": 3, "n3": 3}
+        must = {0: {"data", "c0"}, 1: {"lin", "c1"}, 2: {"lin2", "c2"}, 3: {"c3"}}
+
+        def own_text(i, b):
+            """a complete text written by the library for fragment i: only fields of fragment i, all of its old ones"""
+            if not b.startswith(b"# This is a dirfile format file"):
+                return False
+            names = set()
+            for ln in b.decode("latin1").splitlines():
+                wds = ln.split()
+                if wds and not wds[0].startswith(("#", "/")):
+                    names.add(wds[0])
+            return all(owner.get(nm) == i for nm in names) and must[i] <= names
+        bad = None
+        for label, tr in states:
+            for rel, b in tr.items():
+                if shimlib.is_temp_name(rel):
+                    continue
+                o = old.get(rel)
+                okf = (b == o) or (rel in home and own_text(home[rel], b))
+                if not okf and bad is None:
+                    bad = (label, rel, b[:200])
+            for rel in old:
+                if rel not in tr and bad is None:
+                    bad = (label, rel, b"<removed>")
+        if bad:
+            spec_bad.append(("history/file-holds-neither-its-old-nor-its-own-new-text",
+                             "history %s, fragments %s modified, gd_metaflush: %s the file %s holds neither its previous text nor a complete text of ITS OWN fragment: %r" % (
+                                 pre, mods, bad[0], bad[1], bad[2]), dict(hdesc, at=bad[0], file=bad[1])))
+            continue
+        fin = states[-1][1]
+        if h["first"]["ret"] != 0 or any(not hist_new(i, fin.get(relof.get(i, ""), b"")) for i in mods):
+            spec_bad.append(("history/flush-incomplete", "history %s: gd_metaflush returned %s but fragments %s are not all rewritten" % (pre, h["first"]["ret"], mods), hdesc))
+            continue
+        # every rename of the flush stays in the directory of a flushed fragment and hits exactly its own file
+        rn = [(c.p1, c.p2) for c in calls if c.name.startswith("rename") and c.ok]
+        want = sorted(relof[i] for i in mods if i in relof)
+        tg = [p2 for _, p2 in rn]
+        if any(wp not in tg for wp in want) or len(set(tg)) != len(tg) or any(p2 not in home for p2 in tg) or \
+                any(os.path.dirname(p1) != os.path.dirname(p2) for p1, p2 in rn):
+            spec_bad.append(("history/rename-into-wrong-directory", "history %s: the flush of fragments %s renamed %s (expected one rename onto each of %s and only onto fragment files, each inside its own directory)" % (
+                pre, mods, rn, want), hdesc))
+            continue
+        if not dump.startswith("error 0") or any(("entry n%d " % i) not in dump for i in mods):
+            spec_bad.append(("history/gd_open-after-flush", "history %s: a fresh gd_open after the flush does not see the new fields of fragments %s: %s" % (pre, mods, dump[:300]), hdesc))
 
     # ---------------------------------------------------------------- reader that had the dirfile open before
     hold_problem = None
